@@ -71,9 +71,9 @@ def run(tier, seed):
     chk.extra["terminal_behaviours_checked_by_tlc"] = len(behs)
     if len(behs) > cap:
         behs = rng.sample(behs, cap)
-    conts = ["tensor", "numpy", "list"]
+    conts = ["tensor", "numpy", "list", "tensor_strided", "numpy_fortran"]
     tc.replay_behaviours(chk, behs, seed, nontrivial=lambda b: sum(1 for e in b["hist"] if e["k"] == "CG") >= 2,
-                         opts=lambda n, b: dict(container=conts[n % 3], time_flag=False))
+                         opts=lambda n, b: dict(container=conts[n % len(conts)], time_flag=False))
     runs = []
     for i in range(120 if tier == "quick" else 1200):
         cfg = random_cfg(rng, tier)
